@@ -381,6 +381,10 @@ impl<'a> Sk<'a> {
                     if name == "clone" {
                         return Ok(Some(format!("{recv_text}.clone()")));
                     }
+                    // `opt.as_ref()` of a tracked Option keeps the value (`if let Some(x) = opt.as_ref()`)
+                    if name == "as_ref" && m.args.is_empty() && self.tracked.get(&root).map(|t| t.starts_with("Option<")).unwrap_or(false) {
+                        return Ok(Some(format!("{recv_text}.as_ref()")));
+                    }
                     if self.readonly.contains(&name) {
                         for a in &m.args {
                             self.effects(a, out)?;
@@ -418,6 +422,16 @@ impl<'a> Sk<'a> {
                         }
                     }
                     return Ok(None);
+                }
+                // `ctor(..).ok()`: the Ok payload of an event result as an Option
+                if name == "ok" && m.args.is_empty() {
+                    let mut pre = Vec::new();
+                    if let Some(t) = self.val(&m.receiver, &mut pre)? {
+                        if t.contains('(') && !t.starts_with('(') {
+                            out.extend(pre);
+                            return Ok(Some(format!("{t}.ok()")));
+                        }
+                    }
                 }
                 // result/option predicates on kept values
                 if ["is_ok", "is_err", "is_some", "is_none"].contains(&name.as_str()) {
@@ -1090,7 +1104,8 @@ impl<'a> Sk<'a> {
                             out.push(format!("let {m}{name}: {ty} = {rhs}; {}", self.srcnote(l.span())));
                         } else if self.tracked.contains_key(&name) {
                             let ty = self.tracked[&name].clone();
-                            let rhs = v.unwrap_or_else(|| format!("arb::<{ty}>()"));
+                            let is_none = matches!(&*init.expr, syn::Expr::Path(p) if p.path.is_ident("None"));
+                            let rhs = v.unwrap_or_else(|| if is_none && ty.starts_with("Option<") { "None".to_string() } else { format!("arb::<{ty}>()") });
                             out.push(format!("let {m}{name}: {ty} = {rhs}; {}", self.srcnote(l.span())));
                         } else if let Some(v) = v {
                             if v.contains('(') && !v.starts_with('(') {
